@@ -8,7 +8,8 @@ from ase.build import bulk, molecule, surface
 from . import cells
 
 PALETTE = [1, 6, 8, 13, 14, 22, 26, 29, 47, 55, 79, 82]
-FAMILIES = ["gas", "crystal", "defective", "two_crystals", "crystallite", "molecules", "slab", "vacancy_shell", "primitive", "monolayer", "shared_species_stack"]
+FAMILIES = ["gas", "crystal", "defective", "two_crystals", "crystallite", "molecules", "slab", "vacancy_shell", "primitive", "monolayer", "shared_species_stack",
+            "nanotube", "ribbon", "bilayer", "adsorbed_molecule", "amorphous"]
 
 _CRYSTALS = [
     ("Cu", "fcc", 3.61), ("Al", "fcc", 4.05), ("Fe", "bcc", 2.87), ("W", "bcc", 3.16), ("Si", "diamond", 5.43),
@@ -245,9 +246,73 @@ def shared_species_stack(rng, max_atoms):
     return s
 
 
+
+def nanotube(rng, max_atoms):
+    from ase.build import nanotube as _nt
+    n, m = int(rng.integers(3, 7)), int(rng.integers(0, 4))
+    a = _nt(n, m, length=int(rng.integers(1, 4)), vacuum=float(rng.uniform(3, 6)))
+    if rng.random() < 0.4:
+        z = a.get_atomic_numbers(); z[::2] = 5; z[1::2] = 7; a.set_atomic_numbers(z)     # BN tube
+    a.set_pbc(True)
+    return a[:max_atoms] if len(a) > max_atoms else a
+
+
+def ribbon(rng, max_atoms):
+    from ase.build import graphene_nanoribbon
+    a = graphene_nanoribbon(int(rng.integers(2, 5)), int(rng.integers(1, 4)), type=["armchair", "zigzag"][int(rng.integers(2))],
+                            saturated=bool(rng.random() < 0.5), vacuum=float(rng.uniform(3, 6)))
+    a.set_pbc(True)
+    return a[:max_atoms] if len(a) > max_atoms else a
+
+
+def bilayer(rng, max_atoms):
+    from ase.build import graphene
+    n = int(rng.integers(2, 5))
+    g = graphene(vacuum=0.0).repeat((n, n, 1))
+    b = graphene(formula="BN", a=2.46, vacuum=0.0).repeat((n, n, 1))
+    d = float(rng.uniform(3.0, 3.6))
+    b.translate([0, 0, d])
+    s = g + b
+    cell = g.get_cell().array.copy()
+    cell[2] = [0, 0, d + float(rng.uniform(8, 14))]
+    s.set_cell(cell)
+    s.set_pbc(True)
+    if rng.random() < 0.5:
+        s.rattle(stdev=0.02, seed=int(rng.integers(1 << 30)))
+    return s[:max_atoms] if len(s) > max_atoms else s
+
+
+def adsorbed_molecule(rng, max_atoms):
+    from ase.build import fcc111, fcc100, add_adsorbate
+    sym = ["Cu", "Pt", "Al", "Au"][int(rng.integers(4))]
+    n = int(rng.integers(2, 5))
+    s = (fcc111 if rng.random() < 0.5 else fcc100)(sym, size=(n, n, int(rng.integers(2, 5))), vacuum=float(rng.uniform(5, 8)))
+    m = molecule(["CO", "H2O", "NH3", "CH4", "O2"][int(rng.integers(5))])
+    m.rotate(float(rng.uniform(0, 180)), rng.normal(size=3))
+    add_adsorbate(s, m, height=float(rng.uniform(1.6, 2.4)), position=(float(rng.uniform(0, 3)), float(rng.uniform(0, 3))))
+    s.set_pbc(True)
+    return s[:max_atoms] if len(s) > max_atoms else s
+
+
+def amorphous(rng, max_atoms):
+    """Random packing with a minimum distance (a glass-like blob of one or two species in a periodic box)."""
+    n = int(rng.integers(8, min(max_atoms, 70) + 1))
+    L = float((n * rng.uniform(12, 22)) ** (1 / 3))
+    pts = []
+    tries = 0
+    while len(pts) < n and tries < 20000:
+        tries += 1
+        p = rng.random(3) * L
+        if all(np.linalg.norm((p - q + L / 2) % L - L / 2) > 1.9 for q in pts):
+            pts.append(p)
+    z = rng.choice([14, 8] if rng.random() < 0.5 else [29, 40], size=len(pts))
+    return Atoms(numbers=z, positions=np.array(pts), cell=[L, L, L], pbc=True)
+
+
 _BUILDERS = {"gas": gas, "crystal": crystal, "defective": defective, "two_crystals": two_crystals,
              "crystallite": crystallite, "molecules": molecules, "slab": slab, "vacancy_shell": vacancy_shell,
-             "primitive": primitive, "monolayer": monolayer, "shared_species_stack": shared_species_stack}
+             "primitive": primitive, "monolayer": monolayer, "shared_species_stack": shared_species_stack,
+             "nanotube": nanotube, "ribbon": ribbon, "bilayer": bilayer, "adsorbed_molecule": adsorbed_molecule, "amorphous": amorphous}
 
 
 def random_structure(rng, max_atoms=300, family=None, allow_degenerate=True, allow_invalid=False,
